@@ -21,8 +21,11 @@ func (i *vfAdminIAM) GetUserAccount(access string) (auth.Account, error) {
 	}
 	return auth.Account{}, auth.ErrNoSuchUser
 }
-func (i *vfAdminIAM) UpdateUserAccount(access string, p auth.MutableProps) error { i.mutations++; return nil }
-func (i *vfAdminIAM) DeleteUserAccount(access string) error                      { i.mutations++; return nil }
+func (i *vfAdminIAM) UpdateUserAccount(access string, p auth.MutableProps) error {
+	i.mutations++
+	return nil
+}
+func (i *vfAdminIAM) DeleteUserAccount(access string) error { i.mutations++; return nil }
 func (i *vfAdminIAM) ListUserAccounts() ([]auth.Account, error) {
 	i.lists++
 	return []auth.Account{{Access: "someone", Secret: "s3cr3t"}}, nil
